@@ -354,8 +354,8 @@ func (vfs *MemFS) Link(oldname, newname string) (err error) {
 	}
 
 	// The new name may have been created since the directory was walked without a lock held,
-	// possibly by moving the old one : both paths are resolved again.
-	if nParent.children[pi.Part()] != nil {
+	// possibly by moving the old one, or the directory removed : both paths are resolved again.
+	if nParent.removed || nParent.children[pi.Part()] != nil {
 		again = true
 
 		return nil
@@ -448,6 +448,11 @@ func (vfs *MemFS) Mkdir(name string, perm fs.FileMode) error {
 	parent.mu.Lock()
 	defer parent.mu.Unlock()
 
+	if parent.removed {
+		// The directory was removed since the path was resolved.
+		return &fs.PathError{Op: op, Path: name, Err: vfs.err.NoSuchDir}
+	}
+
 	if !parent.checkPermission(avfs.OpenWrite|avfs.OpenLookup, vfs.User()) {
 		return &fs.PathError{Op: op, Path: name, Err: vfs.err.PermDenied}
 	}
@@ -493,8 +498,8 @@ func (vfs *MemFS) MkdirAll(path string, perm fs.FileMode) error {
 		return &fs.PathError{Op: op, Path: path, Err: vfs.err.PermDenied}
 	}
 
-	if vfs.isNotExist(err) && parent.children[pi.Part()] != nil {
-		// The missing entry was created since the path was resolved : resolve it again.
+	if parent.removed || (vfs.isNotExist(err) && parent.children[pi.Part()] != nil) {
+		// The directory was removed, or the missing entry created, since the path was resolved : resolve it again.
 		parent.mu.Unlock()
 
 		return vfs.MkdirAll(path, perm)
@@ -564,6 +569,13 @@ func (vfs *MemFS) OpenFile(name string, flag int, perm fs.FileMode) (avfs.File, 
 
 		avfs.VerifBeforeLock(&parent.mu, true)
 		parent.mu.Lock()
+
+		if parent.removed {
+			// The directory was removed since the path was resolved.
+			parent.mu.Unlock()
+
+			return (*MemFile)(nil), &fs.PathError{Op: op, Path: name, Err: vfs.err.NoSuchDir}
+		}
 
 		if om&avfs.OpenWrite == 0 || !parent.checkPermission(avfs.OpenWrite|avfs.OpenLookup, vfs.User()) {
 			parent.mu.Unlock()
@@ -785,11 +797,12 @@ func (vfs *MemFS) RemoveAll(path string) (err error) {
 
 	if child == node(parent) {
 		// The root directory is its own parent: it is emptied but can't be removed.
-		err = vfs.removeAll(parent)
+		err = vfs.removeAll(parent, true)
 		if err == nil {
 			avfs.VerifBeforeLock(&parent.mu, true)
 			parent.mu.Lock()
 			parent.children = nil
+			parent.removed = false // the root directory itself stays.
 			parent.mu.Unlock()
 
 			err = vfs.err.InvalidArgument
@@ -818,22 +831,17 @@ func (vfs *MemFS) RemoveAll(path string) (err error) {
 		return nil
 	}
 
-	if c, ok := child.(*dirNode); ok {
-		avfs.VerifBeforeLock(&c.mu, false)
-		c.mu.RLock()
-		empty := len(c.children) == 0
-		c.mu.RUnlock()
-
-		if !empty {
-			err = vfs.removeAll(c)
-			if err != nil {
-				return &fs.PathError{Op: op, Path: path, Err: err}
-			}
-		}
-	}
-
 	if ok := parent.checkPermission(avfs.OpenWrite, vfs.User()); !ok {
 		return &fs.PathError{Op: op, Path: path, Err: vfs.err.PermDenied}
+	}
+
+	if c, ok := child.(*dirNode); ok {
+		// The directory is emptied and marked as removed under its own lock :
+		// a call that resolved it earlier can't add an entry to it any more.
+		err = vfs.removeAll(c, false)
+		if err != nil {
+			return &fs.PathError{Op: op, Path: path, Err: err}
+		}
 	}
 
 	parent.removeChild(pi.Part())
@@ -845,18 +853,21 @@ func (vfs *MemFS) RemoveAll(path string) (err error) {
 	return nil
 }
 
-func (vfs *MemFS) removeAll(parent *dirNode) error {
+func (vfs *MemFS) removeAll(parent *dirNode, checkEmpty bool) error {
 	avfs.VerifBeforeLock(&parent.mu, true)
 	parent.mu.Lock()
 	defer parent.mu.Unlock()
 
-	if ok := parent.checkPermission(avfs.OpenWrite, vfs.User()); !ok {
-		return vfs.err.PermDenied
+	// An empty directory named by RemoveAll itself is removed whatever its own permissions.
+	if checkEmpty || len(parent.children) != 0 {
+		if ok := parent.checkPermission(avfs.OpenWrite, vfs.User()); !ok {
+			return vfs.err.PermDenied
+		}
 	}
 
 	for name, child := range parent.children {
 		if c, ok := child.(*dirNode); ok {
-			err := vfs.removeAll(c)
+			err := vfs.removeAll(c, true)
 			if err != nil {
 				return err
 			}
@@ -870,6 +881,9 @@ func (vfs *MemFS) removeAll(parent *dirNode) error {
 		child.delete()
 		child.Unlock()
 	}
+
+	// The directory is empty and about to be detached : it takes no new entry.
+	parent.removed = true
 
 	return nil
 }
@@ -923,8 +937,8 @@ func (vfs *MemFS) Rename(oldpath, newpath string) (err error) {
 
 	// The directories may have changed since they were walked without a lock held: both names are looked up again.
 	// (A root directory is its own parent and has no name to look up.)
-	if oChild != node(oParent) && oParent.children[oPI.Part()] != oChild {
-		// The old name was removed or replaced in the meantime : both paths are resolved again.
+	if nParent.removed || (oChild != node(oParent) && oParent.children[oPI.Part()] != oChild) {
+		// The old name was removed or replaced, or the new directory removed, in the meantime : both paths are resolved again.
 		again = true
 
 		return nil
@@ -1066,6 +1080,11 @@ func (vfs *MemFS) Symlink(oldname, newname string) error {
 	avfs.VerifBeforeLock(&parent.mu, true)
 	parent.mu.Lock()
 	defer parent.mu.Unlock()
+
+	if parent.removed {
+		// The directory was removed since the path was resolved.
+		return &os.LinkError{Op: op, Old: oldname, New: newname, Err: vfs.err.NoSuchDir}
+	}
 
 	if !parent.checkPermission(avfs.OpenWrite, vfs.User()) {
 		return &os.LinkError{Op: op, Old: oldname, New: newname, Err: vfs.err.PermDenied}
